@@ -42,7 +42,7 @@ def run_mode(ctx, r, h, drv, mode, seed, n, timeout):
         return
     for x in hang:
         r.hits.append(Hit('monitor', 'C13:%s:hang' % mode,
-                          'a join / jthread destructor / interrupted thread did not finish within the watchdog bound (8 s): %s' % x,
+                          'a join / jthread destructor / interrupted thread did not finish within the watchdog bound (30 s): %s' % x,
                           dict(rep, case=x)))
     if not ended and not hang:
         r.hits.append(Hit('monitor', 'C13:%s:crash' % mode,
@@ -176,7 +176,7 @@ def run(ctx):
         except Exception as e:
             r.notes.append('replay file not usable (%r); running the normal tier' % e)
     n = N[ctx.tier]
-    to = 240 if ctx.tier == 'quick' else 2400
+    to = 400 if ctx.tier == 'quick' else 2400
     seeds = [ctx.seed] if ctx.tier == 'quick' else [ctx.seed, ctx.seed + 1000]
     for sd in seeds:
         for mode in ('seq', 'race', 'f13', 'jthr', 'intr'):
@@ -185,6 +185,6 @@ def run(ctx):
     r.notes.append('E4 (run_thread_exit_callbacks pops the front after invoking it unlocked: a callback pushed meanwhile is dropped and the '
                    'invoked one runs twice) needs two callbacks on one thread: detail API, or two tasks joining the same pika::thread object '
                    'concurrently, or a joiner that catches thread_interrupted inside join and joins again — outside the property, not checked')
-    r.notes.append('join_returns (progress) is not proved in Coq; covered at run time by the watchdog (every join/destructor returns within 8 s) '
+    r.notes.append('join_returns (progress) is not proved in Coq; covered at run time by the watchdog (every join/destructor returns within 30 s) '
                    'and by the model Examples for the three orders')
     return r
